@@ -109,7 +109,8 @@ def dense_rows(m):
 
 
 # ------------------------------------------------------------------ observation of a real table
-def observe(t):
+def observe(t, probes=None):
+    probes = PROBES if probes is None else probes
     obs_ids = [str(x) for x in t.ids(axis="observation")]
     samp_ids = [str(x) for x in t.ids()]
     n, m = len(obs_ids), len(samp_ids)
@@ -127,7 +128,7 @@ def observe(t):
          "exists_obs": [bool(t.exists(i, axis="observation")) for i in t.ids(axis="observation")],
          "exists_samp": [bool(t.exists(i)) for i in t.ids()],
          "probes_unknown": [], "omd_len": None, "smd_len": None, "dense": dense}
-    for ax, p in PROBES:
+    for ax, p in probes:
         if p in (obs_ids if ax == "observation" else samp_ids):
             o["probes_unknown"].append(True)
             continue
@@ -379,15 +380,25 @@ def model_ops_for(events, result, receiver, inplace, extra):
     return ops + list(extra)
 
 
-def run_history(ctx, cap, templates, start_spec, route, names, impl_name, tags):
+def run_history(ctx, cap, templates, start_spec, route, names, impl_name, tags, profile=None):
+    if profile:
+        import biom.err as E
+        with E.errstate(**profile):
+            return run_history(ctx, cap, templates, start_spec, route, names, impl_name, list(tags) + ["profile=%s" % sorted(profile.items())])
     t = None
     cap.events.clear()
+    # IDs the history may remove are probed afterwards: a removed ID must be reported unknown
+    probes = PROBES + [["observation", i] for i in start_spec["obs"]] + [["sample", i] for i in start_spec["samp"]]
     t = core.build(start_spec, route)
     steps = []
     ev0 = [e for e in cap.events if e["kind"] == "ctor" and e["obj"] == id(t)]
     first_ops = model_ops_for(list(cap.events), t, None, False, [])
-    steps.append({"ops": first_ops, "obs": observe(t), "md": md_obs(t)})
+    steps.append({"ops": first_ops, "obs": observe(t, probes), "md": md_obs(t)})
     log = ["start:%s" % route]
+    # earlier tables of the history stay alive (a user may still hold them): they must stay coherent too,
+    # e.g. when a derived table shares their ID arrays
+    alive = []
+    bystander_obs = []
     for name in names:
         cap.events.clear()
         receiver = t
@@ -402,19 +413,28 @@ def run_history(ctx, cap, templates, start_spec, route, names, impl_name, tags):
             ctx.count("op-raised=" + err)
             # a refused/failed operation: the table the user still holds must be coherent;
             # events of an aborted in-place call are replayed so the model follows partial effects
-            ops = model_ops_for(list(cap.events), t, t, True, []) if cap.events else []
+            inplace_call = name.endswith("-True") or name.startswith(
+                ("add-metadata", "del-metadata", "norm-inplace", "transform-zeroing-inplace"))
+            # a failed call that works on a private copy leaves the receiver as it was
+            ops = model_ops_for(list(cap.events), t, t, True, []) if (cap.events and inplace_call) else []
             # update_ids refusals and the like leave no events
             ops = [o for o in (ops or [])]
         else:
             ops = model_ops_for(list(cap.events), result, receiver, inplace, extra)
+        if result is not receiver and all(receiver is not a for a in alive):
+            alive.append(receiver)
+            alive[:] = alive[-3:]
         t = result
         log.append(name + ("!" + err if err else ""))
+        for a in alive:
+            if a is not t:
+                bystander_obs.append((len(log) - 1, observe(a, probes)))
         if ops is None:
             ctx.notes.append("no constructor event for the result of %s" % name)
             ops = []
-            steps.append({"ops": ops, "obs": observe(t), "md": None, "resync": True})
+            steps.append({"ops": ops, "obs": observe(t, probes), "md": None, "resync": True})
             break
-        steps.append({"ops": ops, "obs": observe(t), "md": md_obs(t)})
+        steps.append({"ops": ops, "obs": observe(t, probes), "md": md_obs(t)})
         if t.shape[0] == 0 or t.shape[1] == 0:
             ctx.count("history-reached-empty-table")
             break
@@ -442,8 +462,18 @@ def run_history(ctx, cap, templates, start_spec, route, names, impl_name, tags):
         if s["obs"].get("pairwise_obs") is None:
             s["obs"]["pairwise_obs"] = []
     case = {"start": core.spec_obs(start_spec), "route": route, "ops": names, "impl": impl_name}
-    req = {"steps": [{"ops": s["ops"], "obs": s["obs"], "md": s["md"]} for s in steps], "probes": PROBES}
+    req = {"steps": [{"ops": s["ops"], "obs": s["obs"], "md": s["md"]} for s in steps], "probes": probes}
     ctx.case(case, nontrivial=len(names) >= 1)
+    if bystander_obs:
+        # coherence of the tables left behind: holds only (the model follows the current table)
+        breq = {"steps": [{"ops": [], "obs": o, "md": None} for _, o in bystander_obs], "probes": probes}
+        br = ctx.driver.ask(breq)
+        ctx.count("bystander-observations", len(bystander_obs))
+        for (i, o), rs in zip(bystander_obs, br["steps"]):
+            if not rs["holds"]:
+                ctx.fail(dict(case, step=i, log=log[:i + 1], bystander=True), rs["clause"],
+                         list(tags) + [impl_name, "bystander-table", "after=" + log[i].split("!")[0]], detail={"obs": o})
+                return False
     r = ctx.driver.ask(req)
     for i, (s, rs) in enumerate(zip(steps, r["steps"])):
         step_case = dict(case, step=i, log=log[:i + 1])
@@ -490,7 +520,7 @@ def run(ctx):
     specs = start_specs(ctx.rng)
     impls = kernels.kernel_impls()
     cap = Capture()
-    budget = 45 if ctx.quick() else 600
+    budget = 36 if ctx.quick() else 600
     try:
         for impl_name, mods in impls:
             if mods is None:
@@ -520,6 +550,16 @@ def run(ctx):
                         break
                     run_history(ctx, cap, templates, specs[k % len(specs)], core.ROUTES[k % len(core.ROUTES)], [a, b],
                                 impl_name, ["depth2"])
+                # histories under empty='raise': operations that empty the table raise; the caller keeps the table
+                emptying = ["filter-pred-sample-True", "filter-pred-observation-True", "remove-empty-True", "subsample-2-sample",
+                            "filter-first-half-sample-True", "collapse-const-norm-min2-sample", "head", "transform-zeroing-inplace-sample"]
+                zero_spec = {"obs": ["a", "b"], "samp": ["x", "y", "z"], "rows": [[0.0, 1.0, 0.0], [0.0, 0.0, 0.0]],
+                             "omd": None, "smd": [{"grp": "u"}, {"grp": "v"}, {"grp": "w"}], "type": None}
+                allzero = {"obs": ["a", "b"], "samp": ["x", "y"], "rows": [[0.0, 0.0], [0.0, 0.0]], "omd": None, "smd": None, "type": None}
+                for spec in (zero_spec, allzero, specs[1]):
+                    for a in emptying:
+                        for b in ("copy", "filter-invert-first-sample-True", "update-ids-partial-shorter-sample-True"):
+                            run_history(ctx, cap, templates, spec, "dense", [a, b], impl_name, ["profile"], profile={"empty": "raise"})
                 # random longer histories on generated tables
                 n_rand = 120 if ctx.quick() else 6000
                 for k in range(n_rand):
